@@ -429,20 +429,20 @@ theorem msf_strs_nil (X : ES.CharSet) (h : X.strs = []) : (ES.maybeSimpleCaseFol
   simp [ES.maybeSimpleCaseFolding, hic, hus, h]
 
 mutual
-theorem den_vOperand_i : ∀ (o : ES.VOp) (neg : Bool) (op : Operand), vopOK fl.unicodeSets o = true →
-    lowerVOperand fl neg o = .ok op → OpRDen (ES.vOpCharSet rer o) op
-  | .c cp, neg, op, hok, hl => by
+theorem den_vOperand_i : ∀ (o : ES.VOp) (op : Operand), vopOK fl.unicodeSets o = true →
+    lowerVOperand fl o = .ok op → OpRDen (ES.vOpCharSet rer o) op
+  | .c cp, op, hok, hl => by
     simp only [lowerVOperand, Except.ok.injEq] at hl; subst hl
     simp only [vopOK, decide_eq_true_eq] at hok
     exact ⟨hok, fun x => by simp only [ES.vOpCharSet]; exact msf_single_chars hic hu hus fl hfi cp x,
       by simp only [ES.vOpCharSet]; exact msf_strs_nil hic hu hus fl hfi _ rfl⟩
-  | .r _ _, neg, op, hok, hl => by simp [lowerVOperand] at hl
-  | .esc e, neg, op, hok, hl => by
+  | .r _ _, op, hok, hl => by simp [lowerVOperand] at hl
+  | .esc e, op, hok, hl => by
     simp only [lowerVOperand, hfi, Except.ok.injEq] at hl; subst hl
     rw [codepointsFromClass_true]
     exact ⟨by simpa [ES.vOpCharSet] using (cden_classEscape_vi hic hu hus e _ (den_escPositive e)).rden,
       by simp [ES.vOpCharSet, classEscape_strs_icase]⟩
-  | .prop pneg kind name, neg, op, hok, hl => by
+  | .prop pneg kind name, op, hok, hl => by
     simp only [lowerVOperand] at hl
     simp only [vopOK, propIsCharClass] at hok
     cases hp : lowerProp fl.unicodeSets kind name with
@@ -460,80 +460,94 @@ theorem den_vOperand_i : ∀ (o : ES.VOp) (neg : Bool) (op : Operand), vopOK fl.
         | true =>
           simp only [if_true, hfi, Except.ok.injEq] at hl; subst hl
           exact ⟨by simpa [ES.vOpCharSet] using hneg.rden, by simp [ES.vOpCharSet, hstrs]⟩
-  | .q _, neg, op, hok, hl => by simp [vopOK] at hok
-  | .cls negateSet vop ops, neg, op, hok, hl => by
+  | .q _, op, hok, hl => by simp [vopOK] at hok
+  | .cls negateSet vop ops, op, hok, hl => by
     simp only [vopOK] at hok
     simp only [lowerVOperand] at hl
     cases vop with
     | union =>
       simp only at hl
-      cases hr : lowerVUnion fl (negateSet || neg) ops {} with
+      cases hr : lowerVUnion fl ops {} with
       | error e => rw [hr] at hl; cases hl
       | ok result =>
         rw [hr] at hl
+        simp only at hl
+        split at hl
+        · cases hl
         simp only [Except.ok.injEq] at hl; subst hl
-        have h0 := den_vUnion_i ops (negateSet || neg) {} result ES.CharSet.empty vrden_empty hok hr
+        have h0 := den_vUnion_i ops {} result ES.CharSet.empty vrden_empty hok hr
         have h1 : VRDen (ES.vUnion rer ops) result :=
           ⟨h0.den.congr (fun x => by simp [ES.CharSet.union, ES.CharSet.empty]),
             strs_of_union_nil rfl h0.strs, h0.alts⟩
-        simp only [ES.vOpCharSet]
-        exact opRDen_nested hic hu hus fl hfi h1
+        simp only [ES.vOpCharSet, absorb_nil h1.alts]
+        have hn := opRDen_nested hic hu hus fl hfi h1 (negateSet := negateSet)
+        simpa only [hfi, if_true] using hn
     | inter =>
       simp only at hl
-      cases hr : lowerVInterStart fl (negateSet || neg) ops with
+      cases hr : lowerVInterStart fl ops with
       | error e => rw [hr] at hl; cases hl
       | ok result =>
         rw [hr] at hl
+        simp only at hl
+        split at hl
+        · cases hl
         simp only [Except.ok.injEq] at hl; subst hl
-        simp only [ES.vOpCharSet]
-        exact opRDen_nested hic hu hus fl hfi (den_vInterStart_i ops _ result hok hr).vrden
+        have h1 := (den_vInterStart_i ops result hok hr).vrden
+        simp only [ES.vOpCharSet, absorb_nil h1.alts]
+        have hn := opRDen_nested hic hu hus fl hfi h1 (negateSet := negateSet)
+        simpa only [hfi, if_true] using hn
     | sub =>
       simp only at hl
-      cases hr : lowerVSubStart fl (negateSet || neg) ops with
+      cases hr : lowerVSubStart fl ops with
       | error e => rw [hr] at hl; cases hl
       | ok result =>
         rw [hr] at hl
+        simp only at hl
+        split at hl
+        · cases hl
         simp only [Except.ok.injEq] at hl; subst hl
-        simp only [ES.vOpCharSet]
-        exact opRDen_nested hic hu hus fl hfi (den_vSubStart_i ops _ result hok hr).vrden
-theorem den_vInterStart_i : ∀ (ops : List ES.VOp) (neg : Bool) (result : ClassSet),
-    vopsOK fl.unicodeSets ops = true → lowerVInterStart fl neg ops = .ok result → VCDen (ES.vInter rer ops) result
-  | [], neg, result, hok, hl => by simp [lowerVInterStart] at hl
-  | [_], neg, result, hok, hl => by simp [lowerVInterStart] at hl
-  | o :: o2 :: os, neg, result, hok, hl => by
+        have h1 := (den_vSubStart_i ops result hok hr).vrden
+        simp only [ES.vOpCharSet, absorb_nil h1.alts]
+        have hn := opRDen_nested hic hu hus fl hfi h1 (negateSet := negateSet)
+        simpa only [hfi, if_true] using hn
+theorem den_vInterStart_i : ∀ (ops : List ES.VOp) (result : ClassSet),
+    vopsOK fl.unicodeSets ops = true → lowerVInterStart fl ops = .ok result → VCDen (ES.vInter rer ops) result
+  | [], result, hok, hl => by simp [lowerVInterStart] at hl
+  | [_], result, hok, hl => by simp [lowerVInterStart] at hl
+  | o :: o2 :: os, result, hok, hl => by
     simp only [vopsOK, Bool.and_eq_true] at hok
     simp only [lowerVInterStart] at hl
-    cases hf : lowerVOperand fl neg o with
+    cases hf : lowerVOperand fl o with
     | error e => rw [hf] at hl; cases hl
     | ok first =>
       rw [hf] at hl
       simp only [hfi] at hl
-      have h1 := den_vOperand_i o _ first hok.1 hf
+      have h1 := den_vOperand_i o first hok.1 hf
       simp only [ES.vInter]
-      exact den_vInter_i (o2 :: os) _ _ result _ (vcden_first (opCDen_close h1)) (by simp [vopsOK, hok.2]) hl
-theorem den_vSubStart_i : ∀ (ops : List ES.VOp) (neg : Bool) (result : ClassSet),
-    vopsOK fl.unicodeSets ops = true → lowerVSubStart fl neg ops = .ok result → VCDen (ES.vSub rer ops) result
-  | [], neg, result, hok, hl => by simp [lowerVSubStart] at hl
-  | [_], neg, result, hok, hl => by simp [lowerVSubStart] at hl
-  | o :: o2 :: os, neg, result, hok, hl => by
+      exact den_vInter_i (o2 :: os) _ result _ (vcden_first (opCDen_close h1)) (by simp [vopsOK, hok.2]) hl
+theorem den_vSubStart_i : ∀ (ops : List ES.VOp) (result : ClassSet),
+    vopsOK fl.unicodeSets ops = true → lowerVSubStart fl ops = .ok result → VCDen (ES.vSub rer ops) result
+  | [], result, hok, hl => by simp [lowerVSubStart] at hl
+  | [_], result, hok, hl => by simp [lowerVSubStart] at hl
+  | o :: o2 :: os, result, hok, hl => by
     simp only [vopsOK, Bool.and_eq_true] at hok
     simp only [lowerVSubStart] at hl
-    cases hf : lowerVOperand fl neg o with
+    cases hf : lowerVOperand fl o with
     | error e => rw [hf] at hl; cases hl
     | ok first =>
       rw [hf] at hl
       simp only [hfi] at hl
-      have h1 := den_vOperand_i o _ first hok.1 hf
+      have h1 := den_vOperand_i o first hok.1 hf
       simp only [ES.vSub]
-      exact den_vSub_i (o2 :: os) _ _ result _ (vcden_first (opCDen_close h1)) (by simp [vopsOK, hok.2]) hl
-theorem den_vUnion_i : ∀ (ops : List ES.VOp) (neg : Bool) (acc result : ClassSet) (A : ES.CharSet), VRDen A acc →
-    vopsOK fl.unicodeSets ops = true → lowerVUnion fl neg ops acc = .ok result →
+      exact den_vSub_i (o2 :: os) _ result _ (vcden_first (opCDen_close h1)) (by simp [vopsOK, hok.2]) hl
+theorem den_vUnion_i : ∀ (ops : List ES.VOp) (acc result : ClassSet) (A : ES.CharSet), VRDen A acc →
+    vopsOK fl.unicodeSets ops = true → lowerVUnion fl ops acc = .ok result →
     VRDen (A.union (ES.vUnion rer ops)) result
-  | [], neg, acc, result, A, ha, hok, hl => by
+  | [], acc, result, A, ha, hok, hl => by
     simp only [lowerVUnion, Except.ok.injEq] at hl; subst hl
     exact ⟨ha.den.congr (fun x => by simp [ES.CharSet.union, ES.vUnion, ES.CharSet.empty]),
       by simp [ES.CharSet.union, ES.vUnion, ES.CharSet.empty, ha.strs], ha.alts⟩
-  | o :: os, neg, acc, result, A, ha, hok, hl => by
+  | o :: os, acc, result, A, ha, hok, hl => by
     simp only [vopsOK, Bool.and_eq_true] at hok
     by_cases hr : ∃ lo hi, o = .r lo hi
     · obtain ⟨lo, hi, rfl⟩ := hr
@@ -553,54 +567,54 @@ theorem den_vUnion_i : ∀ (ops : List ES.VOp) (neg : Bool) (acc result : ClassS
             simp [mem])).congr (fun x => by simp [ES.CharSet.union]),
           union_strs_nil ha.strs (by simp only [ES.vOpCharSet]; exact msf_strs_nil hic hu hus fl hfi _ rfl),
           ha.alts⟩
-      have := den_vUnion_i os neg _ result _ hstep hok.2 hl
+      have := den_vUnion_i os _ result _ hstep hok.2 hl
       simp only [ES.vUnion]
       exact vrden_assoc this ha.strs (by simp only [ES.vOpCharSet]; exact msf_strs_nil hic hu hus fl hfi _ rfl)
     · have hne : ∀ lo hi, o ≠ .r lo hi := fun lo hi h => hr ⟨lo, hi, h⟩
       rw [lowerVUnion_cons hne] at hl
-      cases hf : lowerVOperand fl neg o with
+      cases hf : lowerVOperand fl o with
       | error e => rw [hf] at hl; cases hl
       | ok x =>
         rw [hf] at hl
-        have h1 := den_vOperand_i o neg x hok.1 hf
+        have h1 := den_vOperand_i o x hok.1 hf
         have hstep := vrden_unionOperand ha h1
-        have := den_vUnion_i os neg _ result _ hstep hok.2 hl
+        have := den_vUnion_i os _ result _ hstep hok.2 hl
         simp only [ES.vUnion]
         exact vrden_assoc this ha.strs (opRDen_strs h1)
-theorem den_vInter_i : ∀ (ops : List ES.VOp) (neg : Bool) (acc result : ClassSet) (A : ES.CharSet), VCDen A acc →
-    vopsOK fl.unicodeSets ops = true → lowerVInter fl neg ops acc = .ok result →
+theorem den_vInter_i : ∀ (ops : List ES.VOp) (acc result : ClassSet) (A : ES.CharSet), VCDen A acc →
+    vopsOK fl.unicodeSets ops = true → lowerVInter fl ops acc = .ok result →
     VCDen (ES.vInterFrom rer A ops) result
-  | [], neg, acc, result, A, ha, hok, hl => by
+  | [], acc, result, A, ha, hok, hl => by
     simp only [lowerVInter, Except.ok.injEq] at hl; subst hl
     simpa [ES.vInterFrom] using ha
-  | o :: os, neg, acc, result, A, ha, hok, hl => by
+  | o :: os, acc, result, A, ha, hok, hl => by
     simp only [vopsOK, Bool.and_eq_true] at hok
     simp only [lowerVInter] at hl
-    cases hf : lowerVOperand fl neg o with
+    cases hf : lowerVOperand fl o with
     | error e => rw [hf] at hl; cases hl
     | ok x =>
       rw [hf] at hl
       simp only [hfi] at hl
-      have h1 := den_vOperand_i o neg x hok.1 hf
+      have h1 := den_vOperand_i o x hok.1 hf
       simp only [ES.vInterFrom]
-      exact den_vInter_i os neg _ result _ (vcden_intersectOperand ha (opCDen_close h1)) hok.2 hl
-theorem den_vSub_i : ∀ (ops : List ES.VOp) (neg : Bool) (acc result : ClassSet) (A : ES.CharSet), VCDen A acc →
-    vopsOK fl.unicodeSets ops = true → lowerVSub fl neg ops acc = .ok result →
+      exact den_vInter_i os _ result _ (vcden_intersectOperand ha (opCDen_close h1)) hok.2 hl
+theorem den_vSub_i : ∀ (ops : List ES.VOp) (acc result : ClassSet) (A : ES.CharSet), VCDen A acc →
+    vopsOK fl.unicodeSets ops = true → lowerVSub fl ops acc = .ok result →
     VCDen (ES.vSubFrom rer A ops) result
-  | [], neg, acc, result, A, ha, hok, hl => by
+  | [], acc, result, A, ha, hok, hl => by
     simp only [lowerVSub, Except.ok.injEq] at hl; subst hl
     simpa [ES.vSubFrom] using ha
-  | o :: os, neg, acc, result, A, ha, hok, hl => by
+  | o :: os, acc, result, A, ha, hok, hl => by
     simp only [vopsOK, Bool.and_eq_true] at hok
     simp only [lowerVSub] at hl
-    cases hf : lowerVOperand fl neg o with
+    cases hf : lowerVOperand fl o with
     | error e => rw [hf] at hl; cases hl
     | ok x =>
       rw [hf] at hl
       simp only [hfi] at hl
-      have h1 := den_vOperand_i o neg x hok.1 hf
+      have h1 := den_vOperand_i o x hok.1 hf
       simp only [ES.vSubFrom]
-      exact den_vSub_i os neg _ result _ (vcden_subtractOperand ha (opCDen_close h1)) hok.2 hl
+      exact den_vSub_i os _ result _ (vcden_subtractOperand ha (opCDen_close h1)) hok.2 hl
 end
 
 end
@@ -617,7 +631,48 @@ def classSupportedIV (fl : IR.Flags) : ES.Node → Bool
 
 theorem node_noalts_icase (s : ClassSet) (neg : Bool) (h : s.alts = []) :
     s.node true neg = mkBracket neg (addIcaseCodePoints s.cps) := by
-  simp [ClassSet.node, ClassSet.nonemptyNode, h]
+  simp [ClassSet.node, absorb_nil h, ClassSet.nonemptyNode, h]
+
+/-- The node of a `v`-mode class without strings under `i`, from the denotation of its set. -/
+theorem vcls_node_iv {inp : Input} {cs : List Nat} (ht : Utf8Text inp cs) (pattern : ES.Node) (total : Nat)
+    (rer : ES.RER) (pi : Nat) (back : Bool) (hic : rer.ignoreCase = true) (hu : rer.hasEitherUnicodeFlag = true)
+    (hus : rer.unicodeSets = true) (neg : Bool) (op : ES.VSetOp) (ops : List ES.VOp) (r : ClassSet)
+    (hv : VRDen (ES.vExprCharSet rer op ops) r) :
+    ∃ ir', Parse.reverseCats back (r.node true neg) = .ok ir' ∧
+      NodeSim inp cs total pattern (.vcls neg op ops) rer pi back (r.node true neg) ir' := by
+  rw [node_noalts_icase r neg hv.alts]
+  apply NodeSim.leaf (reverseCats_mkBracket _ _ _) rfl (numGroups_mkBracket _ _)
+    (inRange_mkBracket _ _ _ _)
+  simp only [ES.compileNode]
+  cases neg with
+  | false =>
+    have hcc : ES.compileVCharacterClass rer false op ops = (ES.vExprCharSet rer op ops, false) := by
+      simp [ES.compileVCharacterClass]
+    rw [hcc]
+    apply sim_bracket_gen ht total rer _ false false _ back _ _ (Or.inr hv.strs)
+    intro ch hch
+    rw [bracketTest_mem]
+    exact bne_congr_iff (match_rden hic hu hv.den hch) false
+  | true =>
+    have hcc : ES.compileVCharacterClass rer true op ops =
+        (ES.characterComplement rer (ES.vExprCharSet rer op ops), false) := by
+      simp [ES.compileVCharacterClass, hus]
+    rw [hcc]
+    apply sim_bracket_gen ht total rer _ false true _ back _ _ (Or.inr rfl)
+    intro ch hch
+    rw [bracketTest_mem]
+    have hcomp : CDen (ES.characterComplement rer (ES.vExprCharSet rer op ops)).chars
+        (inverted (addIcaseCodePoints r.cps)) :=
+      (cden_complement hv.den.closure).congr (fun c => by
+        simp [ES.characterComplement, allCharacters_vi hic hus])
+    have h1 := match_cden hic hu hcomp hch
+    rw [C12.inverted_mem hv.den.closure.1 hch] at h1
+    have : ES.existsCanonMember rer (ES.characterComplement rer (ES.vExprCharSet rer op ops)) ch =
+        !decide (mem (addIcaseCodePoints r.cps) ch) := by
+      apply bool_eq_of_iff
+      rw [h1]; simp
+    rw [this]
+    cases decide (mem (addIcaseCodePoints r.cps) ch) <;> rfl
 
 theorem lower_class_node_iv {inp : Input} {cs : List Nat} (ht : Utf8Text inp cs) (pattern : ES.Node) (total : Nat) :
     ∀ (n : ES.Node) (fl : IR.Flags) (rer : ES.RER) (pi : Nat) (back : Bool) (ir : Node),
@@ -679,67 +734,44 @@ theorem lower_class_node_iv {inp : Input} {cs : List Nat} (ht : Utf8Text inp cs)
           NodeSim inp cs total pattern (.vcls neg op ops) rer pi back ir ir' := by
       intro r hv hir
       subst hir
-      rw [hfi, node_noalts_icase r neg hv.alts]
-      apply NodeSim.leaf (reverseCats_mkBracket _ _ _) rfl (numGroups_mkBracket _ _)
-        (inRange_mkBracket _ _ _ _)
-      simp only [ES.compileNode]
-      cases neg with
-      | false =>
-        have hcc : ES.compileVCharacterClass rer false op ops = (ES.vExprCharSet rer op ops, false) := by
-          simp [ES.compileVCharacterClass]
-        rw [hcc]
-        apply sim_bracket_gen ht total rer _ false false _ back _ _ (Or.inr hv.strs)
-        intro ch hch
-        rw [bracketTest_mem]
-        exact bne_congr_iff (match_rden hic hu hv.den hch) false
-      | true =>
-        have hcc : ES.compileVCharacterClass rer true op ops =
-            (ES.characterComplement rer (ES.vExprCharSet rer op ops), false) := by
-          simp [ES.compileVCharacterClass, hus]
-        rw [hcc]
-        apply sim_bracket_gen ht total rer _ false true _ back _ _ (Or.inr rfl)
-        intro ch hch
-        rw [bracketTest_mem]
-        have hcomp : CDen (ES.characterComplement rer (ES.vExprCharSet rer op ops)).chars
-            (inverted (addIcaseCodePoints r.cps)) :=
-          (cden_complement hv.den.closure).congr (fun c => by
-            simp [ES.characterComplement, allCharacters_vi hic hus])
-        have h1 := match_cden hic hu hcomp hch
-        rw [C12.inverted_mem hv.den.closure.1 hch] at h1
-        -- `x != false` with `x ↔ ¬ mem`  against  `decide mem != true`
-        have : ES.existsCanonMember rer (ES.characterComplement rer (ES.vExprCharSet rer op ops)) ch =
-            !decide (mem (addIcaseCodePoints r.cps) ch) := by
-          apply bool_eq_of_iff
-          rw [h1]; simp
-        rw [this]
-        cases decide (mem (addIcaseCodePoints r.cps) ch) <;> rfl
+      rw [hfi]
+      exact vcls_node_iv ht pattern total rer pi back hic hu hus neg op ops r hv
     cases op with
     | union =>
       simp only at hl
-      cases hr : lowerVUnion fl neg ops {} with
+      cases hr : lowerVUnion fl ops {} with
       | error e => rw [hr] at hl; cases hl
       | ok r =>
         rw [hr] at hl
+        simp only at hl
+        split at hl
+        · cases hl
         simp only [Except.ok.injEq] at hl
-        have h0 := den_vUnion_i hic hu hus fl hfi ops neg {} r ES.CharSet.empty vrden_empty hs hr
+        have h0 := den_vUnion_i hic hu hus fl hfi ops {} r ES.CharSet.empty vrden_empty hs hr
         exact fin r ⟨h0.den.congr (fun x => by simp [ES.vExprCharSet, ES.CharSet.union, ES.CharSet.empty]),
           strs_of_union_nil rfl h0.strs, h0.alts⟩ hl.symm
     | inter =>
       simp only at hl
-      cases hr : lowerVInterStart fl neg ops with
+      cases hr : lowerVInterStart fl ops with
       | error e => rw [hr] at hl; cases hl
       | ok r =>
         rw [hr] at hl
+        simp only at hl
+        split at hl
+        · cases hl
         simp only [Except.ok.injEq] at hl
-        exact fin r (den_vInterStart_i hic hu hus fl hfi ops neg r hs hr).vrden hl.symm
+        exact fin r (den_vInterStart_i hic hu hus fl hfi ops r hs hr).vrden hl.symm
     | sub =>
       simp only at hl
-      cases hr : lowerVSubStart fl neg ops with
+      cases hr : lowerVSubStart fl ops with
       | error e => rw [hr] at hl; cases hl
       | ok r =>
         rw [hr] at hl
+        simp only at hl
+        split at hl
+        · cases hl
         simp only [Except.ok.injEq] at hl
-        exact fin r (den_vSubStart_i hic hu hus fl hfi ops neg r hs hr).vrden hl.symm
+        exact fin r (den_vSubStart_i hic hu hus fl hfi ops r hs hr).vrden hl.symm
   | _ => simp [classSupportedIV] at hs
 
 end Regress.Lower
